@@ -9,6 +9,7 @@ CHECKS = {
         "groups": [
             {"pkg": "Havoc/pkg/agent", "with": AGENT_WITH, "entries": ["H_c01_dispatch"], "shards": 16},
             {"pkg": "Havoc/pkg/handlers", "with": ["Havoc/pkg/agent"] + AGENT_WITH, "entries": ["H_c01_request_raw"], "shards": 8},
+            {"pkg": "Havoc/pkg/handlers", "with": ["Havoc/pkg/agent"] + AGENT_WITH, "entries": ["H_c04_checkin"]},
             {"pkg": "Havoc/pkg/handlers", "with": ["Havoc/pkg/agent"] + AGENT_WITH, "entries": ["H_c01_request_hdr"], "shards": 4},
             {"pkg": "Havoc/pkg/agent", "with": AGENT_WITH, "entries": ["H_c01_pivot_nested"], "shards": 2, "flags": ["-loop-bound", "600"]},
             {"pkg": "Havoc/cmd/server", "with": SRV_WITH, "entries": ["H_c01_service_lookup"]},
@@ -61,6 +62,7 @@ CHECKS = {
     "C12": {
         "groups": [
             {"pkg": "Havoc/pkg/handlers", "with": ["Havoc/pkg/agent"] + AGENT_WITH, "entries": ["H_c12_admission"], "flags": ["-tags", "c12"], "shards": 4},
+            {"pkg": "Havoc/cmd/server", "with": SRV_WITH, "entries": ["H_c16_listener_edit"], "no_native_witness": True, "no_native_replay": True},
         ],
         "bounds": "URIs: none / [\"\"] / one / two / [\"\", one] configured, request URI '/'+1 arbitrary byte (thorough 2); User-Agent set/unset ('UA'+1 byte, thorough 2) and present/absent in the request; request headers: none, one required header with a 2-byte arbitrary value (may contain ':' and blanks), with ignored headers in either case; response headers: none / one / two with a 3-byte arbitrary value (may contain ':'); redirector flag; IPv4 and IPv6 peers.",
         "outside": "gin routing and method dispatch (POST/GET registration), net/http, TLS, the bytes of 404.html; header names are concrete",
@@ -94,6 +96,7 @@ CHECKS = {
             {"pkg": "Havoc/pkg/db", "with": ["Havoc/pkg/agent", "Havoc/pkg/logr", "Havoc/pkg/common/parser", "Havoc/pkg/socks"], "entries": ["H_c10_agent_roundtrip", "H_c10_listeners"]},
             {"pkg": "Havoc/pkg/db", "with": ["Havoc/pkg/agent", "Havoc/pkg/logr", "Havoc/pkg/common/parser", "Havoc/pkg/socks"], "entries": ["H_c10_links"], "shards": 3},
             {"pkg": "Havoc/pkg/db", "with": ["Havoc/pkg/agent", "Havoc/pkg/logr", "Havoc/pkg/common/parser", "Havoc/pkg/socks"], "entries": ["H_c10_agent_text"], "shards": 5},
+            {"pkg": "Havoc/pkg/db", "with": ["Havoc/pkg/agent", "Havoc/pkg/logr", "Havoc/pkg/common/parser", "Havoc/pkg/socks"], "entries": ["H_c10_agent_life"], "shards": 3},
         ],
         "bounds": "one session: id with arbitrary top byte (incl. >= 0x80000000) and fixed low 24 bits, 2-byte key and IV, metadata strings of 1..2 lower-case letters, 8..32 bit symbolic integers; insert, restart, restore, update, restart, death, restore. Metadata text: one of 5 text fields holds 1..3 arbitrary printable ASCII characters (digit-only, leading zeros, signs, blank padding), restart, compare. Links: every sequence of 1..3 add/remove operations over 3 agents (one id >= 0x80000000), restart, LinksOf/ParentOf/LinkExist against a reference relation. Listeners: every sequence of 1..3 add/remove operations over two arbitrary names of 1..2 printable characters with 2-character configuration text, restart, ListenerAll/Exist/Count. SQLite is a relational model that executes the SQL text the code really sends, with SQLite's type-affinity rules for integer-looking text and UNIQUE columns; every statement atomic and durable.",
         "outside": "kill points inside a statement and journalling (each statement is atomic in the model), real-literal-looking text (digits with '.', 'e', 'E') in numeric-affinity columns, non-ASCII text, structs.Map/json listener configuration encoding (reflection); native replay exercises real SQLite for witnesses and counterexamples",
@@ -115,7 +118,7 @@ CHECKS = {
     "C18": {
         "groups": [
             {"pkg": "Havoc/pkg/profile/yaotl/hclsyntax", "entries": ["H_c18_template"], "shards": 11, "flags": ["-tags", "nohint", "-init", "Havoc/pkg/profile/yaotl,golang.org/x/text/unicode/norm,github.com/zclconf/go-cty/...,math/big,github.com/agext/levenshtein"]},
-            {"pkg": "Havoc/pkg/profile/yaotl/hclsyntax", "entries": ["H_c18_access"], "shards": 7, "flags": ["-tags", "nohint", "-init", "Havoc/pkg/profile/yaotl,golang.org/x/text/unicode/norm,github.com/zclconf/go-cty/...,math/big,github.com/agext/levenshtein"]},
+            {"pkg": "Havoc/pkg/profile/yaotl/hclsyntax", "entries": ["H_c18_access"], "shards": 8, "flags": ["-tags", "nohint", "-init", "Havoc/pkg/profile/yaotl,golang.org/x/text/unicode/norm,github.com/zclconf/go-cty/...,math/big,github.com/agext/levenshtein"]},
             {"pkg": "Havoc/pkg/profile/yaotl/hclsyntax", "entries": ["H_c18_binary"], "shards": 4, "flags": ["-tags", "nohint", "-init", "Havoc/pkg/profile/yaotl,golang.org/x/text/unicode/norm,github.com/zclconf/go-cty/...,math/big,github.com/agext/levenshtein"]},
         ],
         "bounds": "binary operators: x S1 y S2 z where each operator slot is two arbitrary bytes (all 13 binary operators, either blank placement for one-character operators) over four operand environments (numbers 12,4,2; 7,7,3; number/bool/number; three booleans), as written and with redundant parentheses around the sub-expression that binds first: value prescribed by the six precedence levels, left associativity and the typing rules, or an error diagnostic for ill-typed / division by zero. Access: one arbitrary digit as a source byte in tuple index, attribute name, string key, conditional, for-expression filter, index into a parenthesised splat result, and a splat over null compared with it. Templates: arbitrary literal characters and an arbitrary two-character ASCII string variable in interpolation, strip markers (next to a literal, and separated from it by another sequence), if/else, if without else, for directive, heredoc, indented heredoc, and an indented heredoc with a line that starts with an interpolation.",
@@ -196,6 +199,7 @@ CHECKS = {
         "groups": [
             {"pkg": "Havoc/pkg/agent", "with": ["Havoc/pkg/logr", "Havoc/pkg/common/parser", "Havoc/pkg/socks"], "entries": ["H_c08_chain"], "flags": ["-tags", "uf_aes"], "shards": 3, "shards_thorough": 4},
             {"pkg": "Havoc/pkg/agent", "with": ["Havoc/pkg/logr", "Havoc/pkg/common/parser", "Havoc/pkg/socks"], "entries": ["H_c08_relay"], "flags": ["-tags", "uf_aes", "-time", "300s"]},
+            {"pkg": "Havoc/pkg/agent", "with": ["Havoc/pkg/logr", "Havoc/pkg/common/parser", "Havoc/pkg/socks"], "entries": ["H_c08_tomap"], "flags": ["-tags", "uf_aes"]},
         ],
         "bounds": "chains of 1..3 SMB hops below a direct agent; every agent id with an arbitrary top byte (ids >= 0x80000000 included) and fixed distinct low 24 bits; task = arbitrary command / request id / int argument / byte argument of 0..2 bytes; AES-CTR as uninterpreted per-key stream.",
         "outside": "depth > 3 (thorough: > 4); fully arbitrary ids (thorough tier: target id fully symbolic for one-hop chains); upward relay is covered by C05/C01 harnesses with AES as identity",
